@@ -42,29 +42,7 @@ def check(prog, run):
         run.bad("R1", "anchor", str(e))
         return
     cx, u = m.cx, m.cx.u
-    n = 0
-    for ent, want in TICKS.items():
-        b = u.bodies.get(ent)
-        if b is None:
-            run.bad("R1", "entry " + mir.norm(ent), "not found")
-            continue
-        inner = [(bb, t, name) for bb, t, name, info in mir.calls(b) if name in u.bodies and u.bodies[name].get("impl_self", "").startswith(cx.an.sink_adt or "?")]
-        if len(inner) != 1:
-            run.bad("R1", "inner-call " + mir.norm(ent), "expected one call into the inner writer, found %d" % len(inner))
-            continue
-        bb, t, name = inner[0]
-        for (pname, argpos) in want:
-            n += 1
-            e = common.inline_expr(u, sym.expr(b, t["args"][argpos]))       # a conversion helper is looked through
-            srcs = sym.sources(e)
-            ops_ = sym.ops(e)
-            params = {s[2] for s in srcs if s[0] == "arg"}
-            consts = {s[1] for s in srcs if s[0] == "const"}
-            loads = {s[1] for s in srcs if s[0] == "load"}
-            good = params == {pname} and consts == {90000} and not loads and \
-                sorted(o for o in ops_ if not o.startswith("cast:IntToFloat")) == sorted(["Mul", "call:std::f64::round", "cast:FloatToInt:u64"])
-            run.check(good, "R1", "%s tick(%s)" % (mir.norm(ent), pname), sym.show(e), "tick conversion of %s is %s (sources %s, ops %s)" % (pname, sym.show(e)[:120], sorted(map(str, srcs))[:4], ops_), mir.loc_of(t))
-    run.floor("R1", n, 4, "tick conversions")
+    tick_rule(cx, run, "R1")
     # ---- R2
     for q, kind in ((m.vq, "video"), (m.aq, "audio")):
         w = m.writer_of[q]
@@ -148,6 +126,36 @@ def check(prog, run):
             run.check(ok, "R4", "%s %s mdhd==sum(stts source)" % (key, kind), "mdhd.duration = sum(durations) of the list behind stts", "mdhd duration is %s, not the sum of the durations list that feeds stts" % d)
             if kind == "video":
                 ctts_rule(run, key, trak, m, q)
+
+
+def tick_rule(cx, run, R="R1"):
+    """every public write entry point converts its own timestamp parameter with the one formula cast_u64(round(t * 90000.0)): the same
+    function for both tracks and all entry points, no state, no other parameter (so equal submitted times give equal ticks, the
+    conversion is monotone, and no per-call rounding error accumulates)"""
+    u = cx.u
+    n = 0
+    for ent, want in TICKS.items():
+        b = u.bodies.get(ent)
+        if b is None:
+            run.bad(R, "entry " + mir.norm(ent), "not found")
+            continue
+        inner = [(bb, t, name) for bb, t, name, info in mir.calls(b) if name in u.bodies and u.bodies[name].get("impl_self", "").startswith(cx.an.sink_adt or "?")]
+        if len(inner) != 1:
+            run.bad(R, "inner-call " + mir.norm(ent), "expected one call into the inner writer, found %d" % len(inner))
+            continue
+        bb, t, name = inner[0]
+        for (pname, argpos) in want:
+            n += 1
+            e = common.inline_expr(u, sym.expr(b, t["args"][argpos]))       # a conversion helper is looked through
+            srcs = sym.sources(e)
+            ops_ = sym.ops(e)
+            params = {s[2] for s in srcs if s[0] == "arg"}
+            consts = {s[1] for s in srcs if s[0] == "const"}
+            loads = {s[1] for s in srcs if s[0] == "load"}
+            good = params == {pname} and consts == {90000} and not loads and \
+                sorted(o for o in ops_ if not o.startswith("cast:IntToFloat")) == sorted(["Mul", "call:std::f64::round", "cast:FloatToInt:u64"])
+            run.check(good, R, "%s tick(%s)" % (mir.norm(ent), pname), sym.show(e), "tick conversion of %s is %s (sources %s, ops %s)" % (pname, sym.show(e)[:120], sorted(map(str, srcs))[:4], ops_), mir.loc_of(t))
+    run.floor(R, n, 4, "tick conversions")
 
 
 def rle_rule(prog, run, R="R6"):
@@ -289,6 +297,15 @@ def _uncollect(x):
     return x
 
 
+def _unwrap_seq(x):
+    """strip collect / iter / copied / cloned / to_vec adaptors that leave the elements unchanged"""
+    while isinstance(x, tuple) and x and x[0] == "mcall" and x[1].split("::")[-1] in ("collect", "iter", "into_iter", "copied", "cloned", "to_vec", "as_slice") and len(x) > 2:
+        x = x[2]
+    if isinstance(x, tuple) and x[:1] == ("mcall",) and x[1].split("::")[-1] == "map":
+        return x[:2] + (("mcall", "core::slice::iter", _unwrap_seq(x[2]), ()),) + x[3:]
+    return x
+
+
 def _occurs(big, small):
     if big == small:
         return True
@@ -350,5 +367,21 @@ def ctts_rule(run, key, trak, m, q):
     ctts = [x for x in alts[0][2] if x[0] == "box"][0]
     # entries derive from collect(map(iter(queue), |s| (pts - dts) as i32))
     txt = L.strip_ids(L.freeze(ctts[2]))
+    # ... and nothing else: the sequence the run-length encoder iterates is that very list (no re-basing, scaling or filtering of
+    # the offsets between the queue and the table)
+    seqs = []
+
+    def reps(x):
+        if isinstance(x, tuple) and x[:1] == ("rep",) and len(x) >= 3 and isinstance(x[1], tuple):
+            if x[1][:1] != ("listval",):
+                seqs.append(x[1])
+        if isinstance(x, (tuple, list)):
+            for y in x:
+                reps(y)
+    reps(ctts[2])
+    canon = L.strip_ids(L.freeze(("mcall", "std::iter::Iterator::map", ("mcall", "core::slice::iter", qe, ()), (("lambda", "L0", ("cast", "i32", ("bin", "Sub", ("cast", "i64", ("field", ("elem", qe, "L0"), "pts")), ("cast", "i64", ("field", ("elem", qe, "L0"), "dts"))))),))))
+    bad = [q_ for q_ in seqs if L.strip_ids(L.freeze(_unwrap_seq(q_))) not in (canon, L.strip_ids(L.freeze(qe)))]
+    run.check(seqs and not bad, "R5", key + " ctts-values-only", "the encoder iterates exactly the list of pts - dts",
+              "the ctts encoder iterates %s, not the list of (pts - dts) per queue element itself" % (L.show(bad[0])[:160] if bad else "nothing recognisable"))
     want = L.strip_ids(L.freeze(("cast", "i32", ("bin", "Sub", ("cast", "i64", ("field", ("elem", qe, "L0"), "pts")), ("cast", "i64", ("field", ("elem", qe, "L0"), "dts"))))))
     run.check(L.mentions(txt, lambda y: y == want), "R5", key + " ctts-values", "offset = (pts as i64 - dts as i64) as i32 per queue element", "ctts entries are not pts - dts of the queue elements")
